@@ -150,10 +150,13 @@ static inline std::vector<size_t> gen_page_split(const Chunk& ch, bool simple) {
     if (simple) { out.push_back(n); return out; }
     if (draw(3) == 0) { out.push_back(n); maybe_empty_page(out); return out; }
     size_t target = 1 + draw(4) * draw(40) + draw(9);
+    // data page v1 does not have to start at a record boundary (only v2 and page-indexed files do): writers that cut by size or count
+    // split lists across pages
+    bool mid_record = draw(4) == 0;
     size_t start = 0;
     for (size_t i = 1; i <= n; i++) {
         if (i == n) { out.push_back(i - start); break; }
-        if (ch.rep[i] == 0 && i - start >= target) { out.push_back(i - start); start = i; if (draw(4) == 0) target = 1 + draw(60); }
+        if ((ch.rep[i] == 0 || mid_record) && i - start >= target) { out.push_back(i - start); start = i; if (draw(4) == 0) target = 1 + draw(60); }
     }
     maybe_empty_page(out);
     return out;
